@@ -1494,6 +1494,20 @@ func rC12GetEnvBody(w *World, r *Report) {
 								return false
 							}
 						}
+						// boolWords[v] with a constant table whose words are "true" and "false"
+						if f.Op == token.ILLEGAL && f.Truth {
+							if tab, key, half := tableLookup(f.X); tab != nil && key == ssa.Value(lc) {
+								all := len(tab.trueKeys(half)) > 0
+								for _, kc := range tab.trueKeys(half) {
+									if kc.Kind() != constant.String || (constant.StringVal(kc) != "true" && constant.StringVal(kc) != "false") {
+										all = false
+									}
+								}
+								if all {
+									return false
+								}
+							}
+						}
 						// slices.Contains([]string{"true", "false"}, v)
 						if f.Op == token.ILLEGAL && f.Truth {
 							if cc, ok := f.X.(*ssa.Call); ok && calleeBase(cc) == "slices.Contains" && len(cc.Call.Args) == 2 && cc.Call.Args[1] == ssa.Value(lc) {
@@ -1716,6 +1730,14 @@ func kindEdgeFilter(w *World, kval int64, getenv, found ssa.Value) func(term ssa
 				}
 			}
 			if f.Op == token.ILLEGAL {
+				// a constant table over the kinds: `if verbatimKinds[opt.OptType]`
+				if tab, key, half := tableLookup(f.X); tab != nil {
+					if _, isKind := loadOfFieldNamed(key, "OptType"); isKind {
+						if v := tab.get(constant.MakeInt64(kval), half); v != nil && v.Kind() == constant.Bool && constant.BoolVal(v) != f.Truth {
+							return false
+						}
+					}
+				}
 				if c, ok := f.X.(*ssa.Call); ok {
 					if callee := c.Call.StaticCallee(); callee != nil && callee.Blocks != nil && w.PkgOfFn(callee) != nil {
 						for i, a := range c.Call.Args {
